@@ -556,7 +556,7 @@ def check_set_input(res, facts):
         res.absorb(it)
         for o in outs:
             post = o.cells[cell]
-            ch = changed_fields(pre, post)
+            ch = spec_changed(pre, post)
             ok = o.status == 'returned' and set(ch) <= {field + '.0'} and same(post.get(field), inner)
             res.ob('R-WRITESET', 'set_input(%s)' % vname, ok, 'changed %s; %s = %r' % (ch, field, post.get(field)), where)
 
